@@ -4,6 +4,7 @@ package pstree
 
 import (
 	"fmt"
+	"iter"
 	"math"
 	"math/big"
 	"slices"
@@ -147,6 +148,7 @@ type mode struct {
 // treeStats are the measurements of one run (for the NT rule and the classes).
 type treeStats struct {
 	monoRun, drained, twoChild, clones, drainEmpty, pruned, shaped, nested int
+	reentrant, keptStale                                                   int
 	minSlack                                                               int
 	delRebuild                                                             bool
 	maxHeight                                                              int
@@ -166,8 +168,20 @@ type treeRun[T any] struct {
 	tag      int
 	cmps     int    // comparator call counter
 	cheapKey *int64 // see after()
+	kept     [3]*keptSeq[T]
 
 	treeStats
+}
+
+// keptSeq is a sequence obtained from a tree and STORED (ops "seqKeep" and
+// "seqRange"): ranged later, after the tree has changed.
+type keptSeq[T any] struct {
+	seq   iter.Seq[T]
+	in    *inst[T]
+	k     int64
+	all   bool  // the method value t.Inorder instead of t.InorderAfter(k)
+	snap  []Key // what the reference held (>= k) when the sequence was obtained
+	madeT int   // op index
 }
 
 // mk converts a key of the model into an element for the library.  For the
@@ -1002,17 +1016,29 @@ func (r *treeRun[T]) apply(op Op) string {
 		r.act = op.A % len(r.insts)
 		return ""
 	case "inorder":
-		return r.checkInorderStop(in, op.A)
-	case "after":
-		return r.checkAfter(in, baseKey(op.A), op.B)
-	case "afterI":
-		k, ok := in.ith(op.A)
-		if !ok {
-			k = 1
+		if msg := r.checkInorderStop(in, op.A); msg != "" {
+			return msg
 		}
-		return r.checkAfter(in, k, op.B)
-	case "afterAbsent":
-		return r.checkAfter(in, in.absentNear(op.A), op.B)
+		return r.checkReentrant(in, false, 0, op.A, op.A*401+op.B)
+	case "after", "afterI", "afterAbsent":
+		k := baseKey(op.A)
+		switch op.Kind {
+		case "afterI":
+			var ok bool
+			if k, ok = in.ith(op.A); !ok {
+				k = 1
+			}
+		case "afterAbsent":
+			k = in.absentNear(op.A)
+		}
+		if msg := r.checkAfter(in, k, op.B); msg != "" {
+			return msg
+		}
+		return r.checkReentrant(in, true, k, op.B, op.B*401+op.A)
+	case "seqKeep":
+		return r.seqKeep(in, op.A, op.B)
+	case "seqRange":
+		return r.seqRange(op.A, op.B)
 	case "cursor", "cursorI":
 		// a light cursor probe in the middle of a history (clones and edits
 		// around it): Cursor(key), then Next / Prev / Min / Inorder against the
@@ -1023,7 +1049,13 @@ func (r *treeRun[T]) apply(op Op) string {
 				k = kk
 			}
 		}
-		return r.probeCursor(in, k, op.B)
+		if msg := r.probeCursor(in, k, op.B); msg != "" {
+			return msg
+		}
+		if op.B%2 == 0 {
+			return r.checkHeldCursor(in, k, op.A*401+op.B)
+		}
+		return ""
 	case "asc", "desc", "zig", "ascL", "descL":
 		n := op.A%40 + 1
 		kind := op.Kind
@@ -1345,6 +1377,13 @@ func runTreeOn[T any](c TreeCase, md mode, o *vk.Obs, kit elem.Kit[T]) (*treeRun
 	}
 	r.step = len(c.Ops)
 	r.sub = 0
+	for slot, s := range r.kept { // sequences still stored at the end
+		if s != nil {
+			if msg := r.seqRange(slot%2, slot); msg != "" {
+				return r, msg
+			}
+		}
+	}
 	for j, in := range r.insts {
 		r.act = j
 		if msg := r.after(in, true); msg != "" {
